@@ -51,6 +51,32 @@ package codegen
 //@   loop 0 invariant forall k int :: {arr[k]} 0 <= k && k < i && !has(r.index, k) ==> arr[k] == E(0 - 1)
 //@   loop 0 decreases n - i
 //
+// ---- parser table emitters: _rules and _termCounts (closures lhs, term_counts of EmitParser) ----
+//
+//@ pure func prodsOK(c *context) bool = !isnil(c) && !isnil(c.ParserGrammar) && (forall i int :: {c.ParserGrammar.Prods[i]} 0 <= i && i < len(c.ParserGrammar.Prods) ==> !isnil(c.ParserGrammar.Prods[i]) && !isnil(c.ParserGrammar.Prods[i].Rule))
+//
+//@ func context.EmitParser$4
+//@   requires prodsOK(c)
+//@   ensures len(result) == len(c.ParserGrammar.Prods) && (fresh(result) || len(result) == 0)
+//@   ensures forall i int :: {result[i]} 0 <= i && i < len(result) ==> result[i] == int32(c.ParserGrammar.Prods[i].Rule.Index)
+//@   modifies nothing
+//@   let n = len(c.ParserGrammar.Prods)
+//@   loop 0 invariant -1 <= rangeindex && (rangeindex < n || (n == 0 && rangeindex == -1)) && len(lhs) == n && (fresh(lhs) || n == 0)
+//@   loop 0 invariant unchangedOld(elems(int32)) && unchangedOld(fields(context)) && unchangedOld(fields(lr1.Grammar)) && unchangedOld(fields(lr1.Prod)) && unchangedOld(fields(lr1.Rule)) && unchangedOld(elems(*lr1.Prod))
+//@   loop 0 invariant forall k int :: {lhs[k]} 0 <= k && k <= rangeindex ==> lhs[k] == int32(c.ParserGrammar.Prods[k].Rule.Index)
+//@   loop 0 decreases n - rangeindex
+//
+//@ func context.EmitParser$5
+//@   requires prodsOK(c)
+//@   ensures len(result) == len(c.ParserGrammar.Prods) && (fresh(result) || len(result) == 0)
+//@   ensures forall i int :: {result[i]} 0 <= i && i < len(result) ==> result[i] == int32(len(c.ParserGrammar.Prods[i].Terms))
+//@   modifies nothing
+//@   let n = len(c.ParserGrammar.Prods)
+//@   loop 0 invariant -1 <= rangeindex && (rangeindex < n || (n == 0 && rangeindex == -1)) && len(termCounts) == n && (fresh(termCounts) || n == 0)
+//@   loop 0 invariant unchangedOld(elems(int32)) && unchangedOld(fields(context)) && unchangedOld(fields(lr1.Grammar)) && unchangedOld(fields(lr1.Prod)) && unchangedOld(fields(lr1.Rule)) && unchangedOld(elems(*lr1.Prod))
+//@   loop 0 invariant forall k int :: {termCounts[k]} 0 <= k && k <= rangeindex ==> termCounts[k] == int32(len(c.ParserGrammar.Prods[k].Terms))
+//@   loop 0 decreases n - rangeindex
+//
 // ---- action binding (C06) --------------------------------------------------------------
 //
 // termTy: the Go type of the value a term puts on the parse stack.
